@@ -18,12 +18,13 @@ chk = importlib.util.module_from_spec(spec); loader.exec_module(chk)
 reg = chk.REG
 import tempfile, shutil
 for pid, s in reg.items():
-    key = (s["pkg"], bool(s.get("race")), s.get("tags", "verif"), bool(s.get("clib")))
+  for v in (s.get("variants") or [s.get("tags", "verif")]):
+    key = (s["pkg"], bool(s.get("race")), v, bool(s.get("clib")))
     if key in seen: continue
     seen.add(key)
     d = tempfile.mkdtemp(prefix="verif.", dir=os.environ.get("VERIF_SCRATCH", "/var/tmp"))
     try:
-        b, err = chk.build(s, None, d)
+        b, err = chk.build(s, None, d, v)
         print("build", key, "ok" if b else "FAILED\n" + err)
     finally:
         shutil.rmtree(d, ignore_errors=True)
